@@ -57,6 +57,9 @@ CHECKS = {
  "C18": ("Two-phase probing: candidates found by introspection; a (method, arguments) pair that changes the structure of an unfrozen copy must raise XGIError and change nothing on a frozen build / subhypergraph of the same network",
          "Exploration over every public method of the three classes and every in_place library function with generated networks and synthesised arguments; which pairs are structural mutators is decided by observation in phase 1, so new mutators are included without editing the check; frozen networks come from freeze() and from subhypergraph(); is_frozen and copy-of-frozen (equal, unfrozen, editable) are checked as well. The evidence lists the mutators discovered and the candidates never seen mutating.",
          "Arguments come from a name-keyed registry (uncovered candidates are listed); no-op pairs are not required to raise; attribute setters are not structural.", "DESIGN.md#C18"),
+ "C19": ("Differential testing against brute-force set-theoretic constructions: Hypothesis-generated hypergraphs x all 32 cleanup flag combinations x in_place, selections and orders",
+         "Exploration with an exhaustive flag grid per input: every generated hypergraph is run through all 32 cleanup combinations in both modes and compared (through the recorded old labels) with a construction written from the definition, so that nothing beyond what the guarantees exclude is deleted or merged; relabelling, subhypergraph, dual / dual-of-dual, <<, complement, cut_to_order, k_skeleton, from_max_simplices and largest_connected_hypergraph are compared with their set definitions.",
+         "Ties between largest components accepted; cleanup(connected=True) on a network left without nodes is outside the domain (counted).", "DESIGN.md#C19"),
  "C05": ("Model-based testing: Hypothesis-generated histories applied step by step to xgi and to reference models transcribed from the docstrings (three classes), metamorphic relations for the degree-preserving moves",
          "Exploration by refinement checking against an executable specification: every op of a generated history is applied to the implementation and to the model (parametric in fresh IDs, prefix semantics for bulk calls) and the observable snapshots are compared after every step, including after rejected calls and their exception types.",
          "The models are my transcription of the documentation; inputs the documentation leaves contradictory are excluded by construction and counted (see assumptions in the evidence).", "DESIGN.md#C05"),
